@@ -113,6 +113,19 @@ class ExprMixin:
                 return self.eval_global(mi, name, st)
         if name in ("True", "False", "None"):
             return {"True": vbool(True), "False": vbool(False), "None": vnone()}[name]
+        if name == "__file__":
+            v = Val(fresh("file_path"), th=TH("str"))
+            st.assume(self.type_formula(st, v.z, v.th))
+            return v
+        # a class of the repository named in a specification clause but not imported by the module at hand
+        ci = front.find_class(name, None)
+        if ci is None and name[:1].isupper():
+            self.has_override  # noqa: B018  (index lives on CallMixin)
+            rel = self.class_file(name)
+            if rel is not None:
+                ci = front.load_module(rel).classes.get(name)
+        if ci is not None:
+            return Val(py=("class", ci))
         import builtins
 
         if hasattr(builtins, name) or name in self.SPEC_FUNCS:
